@@ -572,6 +572,20 @@ func (w *world) randomCallTo(c *contractDef) {
 			if mx.Sign() == 0 {
 				mx = big.NewInt(1)
 			}
+			if rng.Intn(4) == 0 {
+				// otherwise valid issue with the supply at a boundary of the amount range (the token contract answers an
+				// issue with a mint of the whole supply to the issuer: a descendant send of that amount)
+				tot = new(big.Int).Set(bigBoundary[rng.Intn(len(bigBoundary))])
+				if rng.Intn(2) == 0 { // the edge of the amount range itself: 2^255-1 is the largest amount a send may carry
+					tot = new(big.Int).Lsh(big.NewInt(1), 255)
+					tot.Sub(tot, big.NewInt(int64(rng.Intn(3))-1))
+				}
+				mx = new(big.Int).Set(tot)
+				if rng.Intn(4) == 0 {
+					mx.Add(mx, big.NewInt(1))
+				}
+				w.out.Count("calls:issue-with-boundary-supply")
+			}
 			args = []interface{}{fmt.Sprintf("tok%d", rng.Intn(100)), fmt.Sprintf("T%d", rng.Intn(100)), "", tot, mx, uint8(rng.Intn(19)), mx.Cmp(tot) != 0 || rng.Intn(2) == 0, rng.Intn(2) == 0, rng.Intn(2) == 0}
 		}
 	case definition.CreateHtlcMethodName:
